@@ -72,10 +72,11 @@ type image struct {
 }
 
 type exec struct {
-	failArm  int                // block writes / compactions that fail next (injected "disk full")
-	starting bool               // inside the reopen of a restart: IO seen now belongs to the start-up of the next process lifetime
-	shardOf  map[string]uint64  // C18: "<n>|<series>" -> shard index seen earlier in this run
-	delTimes map[string][]int64 // C12: timestamps deleted so far, per series
+	ever     map[string]map[int64][]tsdbmodel.Sample // every sample a committed transaction carried, per series and timestamp (C04)
+	failArm  int                                     // block writes / compactions that fail next (injected "disk full")
+	starting bool                                    // inside the reopen of a restart: IO seen now belongs to the start-up of the next process lifetime
+	shardOf  map[string]uint64                       // C18: "<n>|<series>" -> shard index seen earlier in this run
+	delTimes map[string][]int64                      // C12: timestamps deleted so far, per series
 	t        *testing.T
 	prop     string
 	plan     *Plan
@@ -1042,6 +1043,19 @@ func Execute(t *testing.T, prop string, plan *Plan) (res *runner.Result) {
 		if e.failed || e.stopAfterStep {
 			break
 		}
+		if e.cfg.Damage && e.db != nil && e.rng.Chance(0.08) {
+			// damage applied to the directory a process kill leaves (nothing flushed or closed by a shutdown)
+			img := e.scratch("killimg")
+			if err := simfs.CopyTree(e.dir, img); err != nil {
+				panic("harness: " + err.Error())
+			}
+			e.res.Count("fault:process-kill-image", 1)
+			e.logDamageCheck(img, fmt.Sprintf("process kill after op %d", i))
+			os.RemoveAll(img)
+			if e.failed {
+				break
+			}
+		}
 		if e.cfg.ROCheck && e.db != nil && e.rng.Chance(0.05) {
 			// unclean shutdown: the directory as a process kill between two operations leaves it (nothing closed,
 			// open appenders lost), compared the same way as after a clean shutdown
@@ -1146,6 +1160,8 @@ func (e *exec) nonTrivial() bool {
 		return e.res.Counters["samples_deleted"] > 0 && e.compactions > 0 && e.restarts > 0
 	case "C52":
 		return e.res.Counters["counter_checks"] > 10 && e.restarts > 0
+	case "C04":
+		return e.res.Counters["damage_repaired_opens"] > 0
 	case "C24":
 		return e.res.Counters["block_damage_reported"] > 0 && e.res.Counters["blocks_read_back"] > 0
 	case "C22":
@@ -1476,6 +1492,18 @@ func (e *exec) doCommit(i int) {
 	}
 	if len(s.m.ReorderSeries) > 0 {
 		e.stopAfterStep = true // the model cannot follow the implementation's order past this commit
+	}
+	if e.cfg.Damage {
+		if e.ever == nil {
+			e.ever = map[string]map[int64][]tsdbmodel.Sample{}
+		}
+		for _, p := range s.m.Pending {
+			k := e.m.Series[p.Series].Labels.String()
+			if e.ever[k] == nil {
+				e.ever[k] = map[int64][]tsdbmodel.Sample{}
+			}
+			e.ever[k][p.S.T] = append(e.ever[k][p.S.T], p.S)
+		}
 	}
 	eff := e.m.Commit(s.m)
 	e.res.Count("commits", 1)
